@@ -58,8 +58,10 @@ SPEC = {
     "SO3": (lambda k: _rotz(ANG * k), lambda a: math.atan2(a[1, 0], a[0, 0]) / ANG, (3, 3)),
     "SE3": (_se3, lambda a: a[0, 3], (4, 4)),
     "Quaternion": (lambda k: np.array([float(k), 1.0, 0.0, 0.0]), lambda a: a[0], (4,)),
-    "UnitQuaternion": (lambda k: np.array([math.cos(ANG * k / 2), 0.0, 0.0, math.sin(ANG * k / 2)]),
-                       lambda a: 2 * math.atan2(a[3], a[0]) / ANG, (4,)),
+    # odd ids are held as the OTHER quaternion of the double cover (negative scalar part): neighbouring values of a
+    # sequence lie in opposite hemispheres, and a stored value is compared with its sign (ident() checks the array)
+    "UnitQuaternion": (lambda k: (-1.0 if int(k) % 2 else 1.0) * np.array([math.cos(ANG * k / 2), 0.0, 0.0, math.sin(ANG * k / 2)]),
+                       lambda a: 2 * (math.atan2(a[3], a[0]) if a[0] >= 0 else math.atan2(-a[3], -a[0])) / ANG, (4,)),
     "Twist2": (lambda k: _vec(3, k), lambda a: a[0], (3,)),
     "Twist3": (lambda k: _vec(6, k), lambda a: a[0], (6,)),
     "Plucker": (lambda k: np.array([float(k), 0, 0, 0, 0, 1.0]), lambda a: a[0], (6,)),
